@@ -23,7 +23,7 @@ from traits.trait_set_object import TraitSet
 ID = "C14"
 LEVEL = "exploration"
 RULE = ("objects: Hypothesis (history <=12 ops, copy mode) pairs over 10 copy modes, non-trivial = state with a nested container, "
-        "an Instance graph or a prototyped local value; defs: every (definition kind, route) pair of 46 kinds x 3 routes "
+        "an Instance graph, a prototyped local value or cached properties read by static handlers during the restore; defs: every (definition kind, route) pair of 46 kinds x 3 routes "
         "(exhaustive), non-trivial = the definition is a property, compound, delegate, container or mapped trait; distinct by digest")
 ASSUMPTIONS = ["defaults that are fresh per call (Instance with args, UUID) are compared by type/plain value",
                "under clone_traits(copy=None|'shallow') and copy='ref' metadata child HasTraits objects / containers are legitimately shared",
